@@ -263,7 +263,7 @@ func checkProgram(keyScope string, prog []*Step, in, in2 *Rec) (string, string) 
 func describeRec(r *Rec) string {
 	parts := make([]string, len(r.F))
 	for i, f := range r.F {
-		parts[i] = fmt.Sprintf("%s=%q", fieldNames[i], f)
+		parts[i] = fmt.Sprintf("%s=%q", fieldNames[i], clipVal(f))
 	}
 	return fmt.Sprintf("{%s unescaped=%v}", strings.Join(parts, " "), r.Unescaped)
 }
